@@ -103,6 +103,9 @@ def run(ctx):
         for li, l in enumerate(lays):
             P0 = build.zero_hp(l, walk.fill(l, "count", rng, cfgdb))
             structural = set(f["n"] for f in l["fixes"]) | set(c03_disc(l))
+            # (variants the PARSER selects by payload length are selected by a keyword when built: TIM-VCOCAL by type, RXM-PMREQ by
+            # version - that keyword belongs to what must be supplied, or the message is never built and never judged)
+            structural |= {e["n"] for e in l["lay"][:2] if e["k"] == "f" and e["x"] == 1 and e["n"] in ("type", "version", "datumNum") and l["m"] == 1 and (l["cls"], l["id"]) in ((0x0D, 0x15), (0x02, 0x41), (0x06, 0x06))}
             # keywords that name NO attribute of the message in this view: the raw bitfield's own name while flags are exposed (and a
             # flag's name while they are not), an index beyond the group count, the bare name of a grouped attribute, a foreign name:
             # whatever their value, the message is refused or built exactly as without them
